@@ -333,6 +333,27 @@ class TopoModel(Model):
                             if own is not None and p.type != InterfaceType.ServicePort:
                                 ev.append(('disconnect', s, (own.name, p.name)))
                         break
+        if exp and ('c08' in self.oracles or 'c07' in self.oracles):
+            # un-peering services that do not peer: a slice-wide service and the built-in service of a NIC connected to
+            # it, and the built-in services of two components of one node (joined by equally long paths)
+            owned_by_node = {}
+            for x in raw.by_class(NS):
+                ow = sorted(raw.owner(x))
+                if ow and raw.cls(ow[0]) == COMP:
+                    nn_ = sorted(raw.owner(ow[0]))
+                    owned_by_node.setdefault(nn_[0] if nn_ else None, []).append(raw.name(x))
+            for lst in owned_by_node.values():
+                lst.sort()
+                if len(lst) >= 2:
+                    ev.append(('unpeer', lst[0], lst[1]))
+                    break
+            for s in tops[:1]:
+                for lst in owned_by_node.values():
+                    ev.append(('unpeer', s, lst[0]))
+                    break
+            # removing links through the topology call - here every link is one created for a connection
+            for l_ in sorted(self.t.links.keys())[:2]:
+                ev.append(('remove_link', l_))
         if exp and 's1' in tops and 's2' in tops:
             ev.append(('peer', 's1', 's2'))
             ev.append(('unpeer', 's1', 's2'))
@@ -647,6 +668,8 @@ class TopoModel(Model):
             self.node(ev[1]).remove_network_service(ev[2])
         elif k == 'remove_service_owned':
             t.remove_network_service(ev[1])
+        elif k == 'remove_link':
+            t.remove_link(ev[1])
         else:
             raise AssertionError(f'unknown event {ev}')
         return None
@@ -867,7 +890,7 @@ def c07_views(model: TopoModel, raw: Raw, scopes_ok):
 
 
 # ================================================================================================ C08 oracles
-REMOVALS = {'remove_node', 'remove_facility', 'remove_switch', 'remove_component', 'remove_service', 'remove_service_owned', 'disconnect', 'unpeer',
+REMOVALS = {'remove_node', 'remove_facility', 'remove_switch', 'remove_component', 'remove_service', 'remove_service_owned', 'disconnect', 'unpeer', 'remove_link',
             'remove_sub', 'prune', 'sub_remove_link', 'sub_remove_ns_interface', 'sub_remove_node_service'}
 
 
@@ -934,12 +957,23 @@ def c08_targets(pre: Raw, ev):
         if len(sp) != 1:
             return ('unspecified', 'port connected to this service more than once')
         T = {sp[0]}
+    elif k == 'remove_link':
+        l = _find(pre, LINK, ev[1])
+        if l is None:
+            return ('unspecified', 'ambiguous')
+        if any(pre.typ(x) == 'ServicePort' for x in pre.nb(l, 'connects', CP)):
+            # a link created for a connection: whether the call refuses it or takes the service port along is left to the
+            # library - the published rules (C07) judge the model that results
+            return ('unspecified', 'link created for a connection')
+        return ('remove', {l})
     elif k == 'unpeer':
-        a = _find(pre, NS, ev[1], [x for x in pre.by_class(NS) if not pre.owner(x)])
-        b = _find(pre, NS, ev[2], [x for x in pre.by_class(NS) if not pre.owner(x)])
+        a = _find(pre, NS, ev[1])
+        b = _find(pre, NS, ev[2])
         if a is None or b is None:
             return ('unspecified', 'ambiguous')
-        pairs = [(x, y) for x in pre.nb(a, 'connects', CP) for l, y in _peers(pre, x) if b in pre.owner(y)]
+        # services peer through two service ports facing each other (a node port connected to a service is a connection)
+        pairs = [(x, y) for x in pre.nb(a, 'connects', CP) for l, y in _peers(pre, x)
+                 if b in pre.owner(y) and pre.typ(x) == 'ServicePort' and pre.typ(y) == 'ServicePort']
         if not pairs:
             return ('must-raise', 'the two services do not peer')
         if len(pairs) > 1:
